@@ -136,6 +136,7 @@ type FilterSpec struct {
 	Discovery    bool   `json:"discovery,omitempty"`
 	Forward      bool   `json:"forward,omitempty"`
 	Logout       bool   `json:"logout,omitempty"`
+	ViaOverride  bool   `json:"via_override,omitempty"` // written as oidc_override over a default_oidc_config (shared id_token/logout/scopes)
 }
 
 type SWorld struct {
@@ -199,12 +200,22 @@ func NewSWorld(filters []FilterSpec, extra map[string]any) (*SWorld, error) {
 		if f.Forward {
 			o["access_token"] = map[string]any{"header": "x-access-token"}
 		}
-		if f.Logout {
+		if f.Logout && !f.ViaOverride {
 			lo := map[string]any{"path": "/" + f.Name + "/logout"}
 			if !f.Discovery {
 				lo["redirect_uri"] = "http://" + host + "/logout"
 			}
 			o["logout"] = lo
+		}
+		if f.ViaOverride {
+			// shared settings live in default_oidc_config; the override carries only what differs per filter
+			delete(o, "id_token")
+			delete(o, "scopes")
+			def := map[string]any{"id_token": map[string]any{"header": "authorization", "preamble": "Bearer"}, "scopes": []any{}}
+			if f.Logout {
+				def["logout"] = map[string]any{"path": "/logout"}
+			}
+			doc["default_oidc_config"] = def
 		}
 		if f.Redis != "" {
 			name, db := RedisNameDB(f.Redis)
@@ -223,8 +234,12 @@ func NewSWorld(filters []FilterSpec, extra map[string]any) (*SWorld, error) {
 			}
 			o["redis_session_store_config"] = map[string]any{"server_uri": uri}
 		}
+		kind := "oidc"
+		if f.ViaOverride {
+			kind = "oidc_override"
+		}
 		chains = append(chains, map[string]any{"name": f.Name, "match": map[string]any{"header": "x-tenant", "equality": f.Name},
-			"filters": []any{map[string]any{"oidc": o}}})
+			"filters": []any{map[string]any{kind: o}}})
 	}
 	doc["chains"] = chains
 	for k, v := range extra {
@@ -289,6 +304,20 @@ func RedisNameDB(ref string) (string, int) {
 		fmt.Sscanf(dbs, "%d", &db)
 	}
 	return name, db
+}
+
+// LogoutPath is the logout path of filter f in this world.
+func (sw *SWorld) LogoutPath(f FilterSpec) string {
+	if f.ViaOverride {
+		return "/logout"
+	}
+	return "/" + f.Name + "/logout"
+}
+
+// RealmHost returns the in-memory host name of a filter's provider.
+func (sw *SWorld) RealmHost(f FilterSpec) string {
+	idp := sw.Realms[f.Realm]
+	return strings.TrimPrefix(idp.Issuer, "http://")
 }
 
 // SReq is a request to the assembled service.
